@@ -293,6 +293,21 @@ pub fn run(ctx: &mut Ctx) {
         let mut idx: Vec<usize> = (0..POOL.len()).collect();
         rng.shuffle(&mut idx);
         idx.truncate(nr);
+        if rng.chance(1, 4) {
+            // a rule that equates an open term with a closed one (`(mul ?a 0) => 0`), next to a binder: whatever the library
+            // does the first time that happens in a process, it must do in every replay
+            let var = |c: u32| ATerm { v: 2, fields: vec![CField::Slot(c)], children: vec![] };
+            let bin = |v: usize, a: ATerm, b: ATerm| ATerm { v, fields: vec![CField::App, CField::App], children: vec![a, b] };
+            let zero = ATerm { v: 15, fields: vec![CField::Lit("0".into())], children: vec![] };
+            let pos = ops.iter().position(|o| !matches!(o, Op::Add(_))).unwrap_or(ops.len());
+            ops.insert(pos, Op::Add(bin(5, bin(4, var(4), var(8)), zero)));
+            ops.insert(pos, Op::Add(ATerm { v: 6, fields: vec![CField::Bind(10, Box::new(CField::App))], children: vec![bin(5, var(10), var(4))] }));
+            // (two insertions before the first union: the indices of the unions refer to earlier insertions and stay valid)
+            let mz = POOL.iter().position(|r| r.0 == "mul-zero").unwrap();
+            if !idx.contains(&mz) {
+                idx.insert(0, mz);
+            }
+        }
         let iters = rng.range(1, 2);
         let seed = rng.next();
         // half of the histories are free of `Symbol` payloads (whose ordering and hashing go through the
